@@ -1,5 +1,6 @@
 mod asm;
 mod dev;
+mod frag;
 mod frames;
 mod tcp;
 mod pbuf;
@@ -18,6 +19,8 @@ fn main() {
         "asm-replay" => asm::replay(&args),
         "asm-random" => asm::random(&args),
         "ring-replay" => ring::replay(&args),
+        "frag-replay" => frag::replay(&args),
+        "frag-random" => frag::random(&args),
         "tcp-pair" => tcp::pair(&args),
         "tcp-peer-replay" => tcp::peer_replay(&args),
         "tcp-peer-random" => tcp::peer_random(&args),
